@@ -178,7 +178,8 @@ Theorem warm_fetches_nothing : forall ser deser md5, format_roundtrips ser deser
   (forall u, In u (w_docs w) -> f0 (fname (i_kind c) (mangle (md5 u) s_document)) = None) ->
   f0 (fname (i_kind c) (mangle (md5 (w_main w)) s_wsdl)) = None ->
   defs_open ser deser md5 q_none q_stale c pol t w unwrap f0 = (Ret (fetched, out), f1) ->
-  exists out', fst (defs_open ser deser md5 q_none q_stale c' pol t' w unwrap' f1) = Ret ([], out').
+  exists evs out', fst (defs_open ser deser md5 q_none q_stale c' pol t' w unwrap' f1) = Ret (evs, out')
+                   /\ fetched_of evs = [] /\ (pol = 0%N -> parsed_of evs = w_docs w).
 Proof. exact warm_fetches_nothing_l. Qed.
 Print Assumptions warm_fetches_nothing.
 
@@ -193,7 +194,8 @@ Theorem second_client_fetches_nothing : forall ser deser ver md5, format_roundtr
      /\ f0 (fname k (mangle (md5 (w_main w)) s_wsdl)) = None) ->
   match crun ser deser ver md5 q_none q_stale w (f0, t)
              [CClient k d pol u1; CAdvance dt; CClient k d' pol u2] with
-  | [(_, Some (_, _)); _; (_, Some (fetched, _))] => fetched = []
+  | [(_, Some (_, _)); _; (_, Some (evs, _))] =>
+      fetched_of evs = [] /\ (pol = 0%N -> parsed_of evs = w_docs w)
   | _ => False
   end.
 Proof. exact second_client_fetches_nothing_l. Qed.
@@ -203,9 +205,31 @@ Example second_client_nonvacuous :
   map snd (crun toy_ser toy_deser [49]%N (fun u => [u]%N) false false (mkworld 1 [1; 2; 3]%N [true] true)
                 (fs_empty, 0%Z) [CClient KXml 10 0 true; CAdvance 10; CClient KXml 10 0 false; CAdvance 1;
                                  CClient KXml 10 0 true])
-  = [Some ([1; 2; 3]%N, COk true true); None; Some ([], COk true false); None;
-     Some ([1; 2; 3]%N, COk true true)].
+  = [Some ([EvFetch 1; EvParsed 1; EvFetch 2; EvParsed 2; EvFetch 3; EvParsed 3]%N, COk true true); None;
+     Some ([EvParsed 1; EvParsed 2; EvParsed 3]%N, COk true false); None;
+     Some ([EvFetch 1; EvParsed 1; EvFetch 2; EvParsed 2; EvFetch 3; EvParsed 3]%N, COk true true)].
 Proof. vm_compute. reflexivity. Qed.
+
+(* the document plugins' parsed() hook: EVERY open of a document -- whatever the cache holds,
+   hit or miss, any policy, any cache class -- runs it, once per document, in load order; so a
+   load over a warm cache applies exactly the hooks a cold (or uncached) load applies.  (What a
+   policy-0 cache stores is the document before parsed(): the put precedes the hook.) *)
+Theorem parsed_hook_on_every_open : forall ser deser md5 c pol t us f,
+  exists evs f', load ser deser md5 c pol t us f = (Ret evs, f') /\ parsed_of evs = us.
+Proof. exact load_total. Qed.
+Print Assumptions parsed_hook_on_every_open.
+
+Theorem warm_open_applies_same_hooks : forall ser deser md5 c c' pol pol' t t' us f f' evs evs' g g',
+  load ser deser md5 c pol t us f = (Ret evs, g) ->
+  load ser deser md5 c' pol' t' us f' = (Ret evs', g') ->
+  parsed_of evs' = parsed_of evs.
+Proof.
+  intros ser deser md5 c c' pol pol' t t' us f f' evs evs' g g' E E'.
+  destruct (load_total ser deser md5 c pol t us f) as [b [f2 [L P]]].
+  destruct (load_total ser deser md5 c' pol' t' us f') as [b' [f2' [L' P']]].
+  rewrite L in E. rewrite L' in E'. inversion E; inversion E'; subst. congruence.
+Qed.
+Print Assumptions warm_open_applies_same_hooks.
 
 (* any other policy value: no reader uses the cache, the directory is not touched *)
 Theorem other_policy_no_cache : forall ser deser md5 q_none q_stale c pol t w unwrap f,
@@ -239,7 +263,7 @@ Definition two_clients (q_none q_stale : bool) (w : world) (u1 u2 : bool) :=
 
 Theorem reattach_schema_import_refuted :
   two_clients true true (mkworld 1 [1; 2]%N [false] true) true true
-  = [Some ([1; 2]%N, COk true true); Some ([], CRaise)].
+  = [Some ([EvFetch 1; EvParsed 1; EvFetch 2; EvParsed 2]%N, COk true true); Some ([], CRaise)].
 Proof. vm_compute. reflexivity. Qed.
 Print Assumptions reattach_schema_import_refuted.
 
@@ -265,9 +289,9 @@ Print Assumptions wrapped_follows_options_partial.
 
 Theorem wrapped_stale_refuted :
   two_clients false true (mkworld 1 [1]%N [] true) true false
-  = [Some ([1]%N, COk true true); Some ([], COk true true)]       (* wrapped although unwrap=False *)
+  = [Some ([EvFetch 1; EvParsed 1]%N, COk true true); Some ([], COk true true)]   (* wrapped although unwrap=False *)
   /\ two_clients false false (mkworld 1 [1]%N [] true) true false
-  = [Some ([1]%N, COk true true); Some ([], COk true false)].
+  = [Some ([EvFetch 1; EvParsed 1]%N, COk true true); Some ([], COk true false)].
 Proof. split; vm_compute; reflexivity. Qed.
 Print Assumptions wrapped_stale_refuted.
 
@@ -289,7 +313,7 @@ Theorem mem_warm_fetches_nothing : forall md5 w i j pol u1 u2 s,
   pol = 0%N \/ pol = 1%N ->
   let '(_, o1, _, s1) := mdefs_open md5 w i pol u1 s in
   let '(f2, o2, _, _) := mdefs_open md5 w j pol u2 s1 in
-  f2 = [] /\ (pol = 1%N -> o2 = o1).
+  fetched_of f2 = [] /\ (pol = 0%N -> parsed_of f2 = w_docs w) /\ (pol = 1%N -> o2 = o1).
 Proof. exact mem_warm_fetches_nothing_l. Qed.
 Print Assumptions mem_warm_fetches_nothing.
 
@@ -298,7 +322,8 @@ Print Assumptions mem_warm_fetches_nothing.
 Example mem_clients_nonvacuous :
   let (rs, s) := mrun (fun u => [u]%N) (mkworld 1 [1; 2]%N [true] true) 0 (mkm [] [])
                       [(1, true); (1, false); (1, true)]%N in
-  rs = [([1; 2]%N, 2000%N, COk true true); ([], 2000%N, COk true false); ([], 2000%N, COk true true)]
+  rs = [([EvFetch 1; EvParsed 1; EvFetch 2; EvParsed 2]%N, 2000%N, COk true true);
+        ([], 2000%N, COk true false); ([], 2000%N, COk true true)]
   /\ still_own (m_heap s) 0 rs = [false; false; true].
 Proof. vm_compute. split; reflexivity. Qed.
 
